@@ -38,9 +38,9 @@ Proof.
   assert (forallb arg_ok [AStr lab; AStr el; ANum x; ANum y; ANum z; ANum u; AStr ty; ANum occ] = true) as Ha
     by (cbn [forallb arg_ok]; rewrite Hl, He, Ht; reflexivity).
   intros E. pose proof (render_split cif_w_atom _ l eq_refl Ha E) as T. cbn in T. injection T as T. rewrite <- T.
-  unfold site_atom, site_cols. cbn [col]. Local Transparent strip lstrip rstrip.
-  cbn -[leading_float capitalize in_cell dq str_eqb negb orb fprec]. Local Opaque strip lstrip rstrip.
-  rewrite !leading_float_fix. cbn -[in_cell dq capitalize]. unfold ty, adp_type. cbn [f_aniso]. destruct an; reflexivity.
+  unfold site_atom. let v := eval vm_compute in site_cols in change site_cols with v.
+  cbn [col str_eqb Ascii.eqb Bool.eqb andb s String.list_ascii_of_string].
+  rewrite !leading_float_fix. unfold ty, adp_type. cbn [f_aniso q3]. destruct an; reflexivity.
 Qed.
 
 (* the cell record *)
@@ -63,7 +63,7 @@ Proof.
   assert (forallb arg_ok [AStr lab; ANum u1; ANum u2; ANum u3; ANum u4; ANum u5; ANum u6] = true) as Ha
     by (cbn [forallb arg_ok]; rewrite Hl; reflexivity).
   pose proof (render_split cif_w_aniso _ l eq_refl Ha E) as T. cbn in T. injection T as T. rewrite <- T.
-  unfold set_aniso, aniso_cols. Local Transparent strip lstrip rstrip.
-  cbn -[leading_float dq str_eqb fprec q6]. Local Opaque strip lstrip rstrip.
-  rewrite Hr, str_eqb_refl. cbn -[leading_float dq fprec q6]. rewrite !leading_float_fix. reflexivity.
+  unfold set_aniso. let v := eval vm_compute in aniso_cols in change aniso_cols with v.
+  cbn [col str_eqb Ascii.eqb Bool.eqb andb s String.list_ascii_of_string]. rewrite Hr, str_eqb_refl.
+  cbn [map_opt col str_eqb Ascii.eqb Bool.eqb andb s String.list_ascii_of_string]. rewrite !leading_float_fix. reflexivity.
 Qed.
